@@ -239,3 +239,38 @@ def scan_file(root, rel):
                                 not any(isinstance(x, ast.Call) and _dotted(x.func).endswith("default_rng") and not x.args for s2 in st.body for x in ast.walk(s2))
         out.append(("unseeded-generator-only-when-no-seed-given[%s]" % rel, ok, "default_rng() without a seed appears only in the seed=None branch of instantiate_and_seed_RNG"))
     return out
+
+
+
+def h_chain_isolation(I, fi):
+    """run_phyclone_chain: before anything else the chain empties every process-global content-keyed cache (the two recursion caches, whose keys ignore the order of
+    the children while their values depend on it in the last bits, and the proposal caches): what the process computed before - another chain handed to the same pool
+    worker, an earlier run - cannot reach this chain's trace (finding F15)."""
+    P = I.P
+    log = []
+
+    def rec(name, ret=None):
+        def f(I_, a, k, n):
+            log.append(name)
+            return ret
+        return f
+
+    I.registry.call_contracts["phyclone.utils.dev.clear_proposal_dist_caches"] = rec("clear-proposal-caches")
+    I.registry.call_contracts["phyclone.utils.dev.clear_convolution_caches"] = rec("clear-convolution-caches")
+    I.registry.call_contracts["phyclone.run.clear_proposal_dist_caches"] = rec("clear-proposal-caches")
+    I.registry.call_contracts["phyclone.run.clear_convolution_caches"] = rec("clear-convolution-caches")
+    I.registry.call_contracts["phyclone.run.setup_kernel"] = rec("setup_kernel", ("kernel",))
+    I.registry.call_contracts["phyclone.run.setup_samplers"] = rec("setup_samplers", ("samplers",))
+    I.registry.call_contracts["phyclone.tree.tree.Tree.get_single_node_tree"] = rec("first-tree", ("tree",))
+    I.registry.call_contracts["phyclone.run._run_burnin"] = rec("burnin", ("tree",))
+    I.registry.call_contracts["phyclone.run._run_main_sampler"] = rec("main", ("results",))
+    I.registry.class_models["Timer"] = lambda I_, *a, **k: ("timer",)
+    I.registry.class_models["TreeJointDistribution"] = lambda I_, *a, **k: (log.append("tree_dist"), ("tree_dist",))[1]
+    I.registry.class_models["FSCRPDistribution"] = lambda I_, *a, **k: ("prior",)
+    names = [a.arg for a in fi.node.args.args]
+    I.call_function(fi, [("arg", n_) for n_ in names], {}, force_inline=True)
+    dsl.cover(I, "chain-isolation")
+    first_other = min([i for i, e in enumerate(log) if not e.startswith("clear-")] or [len(log)])
+    head = set(log[:first_other])
+    P.check("run.chain-starts-from-empty-caches", head == {"clear-proposal-caches", "clear-convolution-caches"} and "main" in log,
+            "the chain clears the proposal caches and the recursion caches before it builds its distributions, kernel, samplers or first tree", kind="post")
